@@ -74,7 +74,7 @@ def run(ctx):
     def gen_one(u):
         return vf.gen_cases(ctx, "KVStore_Gen", {"Universe": '"%s"' % u, "Tier": '"%s"' % ctx.tier, "Seed": str(ctx.seed % 1000)},
                             outfile="cases-%s.ndjson" % u, timeout=1500, heap="8g",
-                            raw="CONSTANT Keys <- KeysU\nCONSTANT Vals <- V2\nCONSTANT Batches <- BatchesG\nCONSTANT MaxOps <- MaxOpsG")
+                            raw="CONSTANT Keys <- KeysU\nCONSTANT Vals <- V2\nCONSTANT Batches <- BatchesG\nCONSTANT MaxOps <- MaxOpsG", tag="-" + u)
     import concurrent.futures as cf
     genf = {}
     if not ctx.replay:
